@@ -104,8 +104,19 @@ ADD = {
  "C04": (" Operands of named types, an untyped constant operand with an int64 iteration variable, empty-body loops as simple statements (sequences of loops in one block).", " Thorough: the family with the additional mutations (rangex) at the quick size."),
  "C07": (" F_box / F_boxv (fresh objects / composite-literal values), permuted-argument wrappers and the qualified variable rt.Level are included; a missing stage is a machinery error (exit 2), never a silent pass.", ""),
 }
+# third round of seeded changes
+ADD3 = {
+ "C08": " Family T_nest: two nested tape-conditioned loops whose INNER loop is one Seq value run once per outer iteration (a run of a loop value that starts while an earlier run of the same value is still unwinding), body = tape-guarded choice between signals, yield-then-signal and a second guarded pair, every tape of length 8.",
+ "C02": " F_boxm: generators of maps, the yielded operand is a map literal whose KEY is the computed expression.",
+ "C07": " F_boxm (map literals with a computed key) as well.",
+ "C05": " Tag switches may carry a delegating initialiser (switch YieldFrom(g); tag {..}), executed and suspended in before the tag is evaluated.",
+ "C01": " F_jump: tag switches with a yielding initialiser (switch Yield(v); tag {..}).",
+ "C14": " The concurrent phase runs first in every job and adds a bystander goroutine that consumes a generator of another element type (string) at the same time: independence across instantiations of the generic runtime, nothing warmed up.",
+ "C15": " The second version of the edited source imports the runtime package by name (what one file calls the runtime must not leak into the files visited after it); the dependency scenario also has a generator whose element type is declared in the sub-package (open finding KF34: named clause ProvisionalDep).",
+ "C18": " The panic token of the specification is instantiated per run by one of five Go values chosen by the tape (string, error value, pointer, struct value, genuine runtime error) and a recovered value counts as the original only on identity. Family F_nilit: pull loops `for it.MoveNext() {..}` over an iterator variable that is nil (CoSource condition itn): the nil dereference belongs to the advance that evaluates the condition.",
+}
 for k, (t, n) in ADD.items():
-    CHECKS[k]["text"] += t
+    CHECKS[k]["text"] += t + ADD3.get(k, "")
     CHECKS[k]["note"] += n
 
 NOT_YET = {}
